@@ -128,12 +128,21 @@ fn main() {
             let mut ctx = Ctx::new(&prop, tier, seed, trace);
             let start = Instant::now();
             let budget = Duration::from_secs_f64(secs);
+            // the budget is wall time on an idle machine; on a loaded one the worker keeps going until it has
+            // also had `cpu_frac` of the budget as CPU time (capped at 6x the budget in wall time), so that
+            // what a tier covers does not depend on what else the machine is doing
+            let cpu_frac: f64 = arg_val(&args, "--cpu-frac").and_then(|s| s.parse().ok()).unwrap_or(0.85);
+            let cpu_need = secs * cpu_frac;
+            let wall_cap = Duration::from_secs_f64(secs * 6.0);
             let directed = check.directed();
             let mut case = shard;
             let mut ran = 0u64;
             while ran < max_cases {
                 // directed cases always run to completion; random ones until the budget is used
-                if case >= directed && (start.elapsed() >= budget || check.finite()) {
+                if case >= directed && check.finite() {
+                    break;
+                }
+                if case >= directed && start.elapsed() >= budget && (process_cpu_secs() >= cpu_need || start.elapsed() >= wall_cap) {
                     break;
                 }
                 ctx.case = case;
@@ -157,6 +166,7 @@ fn main() {
             s["cases"] = serde_json::json!(ran);
             s["shard"] = serde_json::json!(shard);
             s["wall_s"] = serde_json::json!(start.elapsed().as_secs_f64());
+            s["cpu_s"] = serde_json::json!(process_cpu_secs());
             println!("{}", s);
         }
         "replay" => {
@@ -185,4 +195,15 @@ fn main() {
             std::process::exit(2);
         }
     }
+}
+
+/// CPU time consumed by this process so far
+fn process_cpu_secs() -> f64 {
+    let mut ts = libc::timespec { tv_sec: 0, tv_nsec: 0 };
+    // safe to call: writes one timespec
+    let r = unsafe { libc::clock_gettime(libc::CLOCK_PROCESS_CPUTIME_ID, &mut ts) };
+    if r != 0 {
+        return f64::MAX;
+    }
+    ts.tv_sec as f64 + ts.tv_nsec as f64 * 1e-9
 }
